@@ -67,6 +67,25 @@ theorem literal_matches_only_itself (pattern address : Str) (h : ∀ c ∈ patte
       he ((matches_seqOf_chr pattern address).mp ((fullmatch_iff _ _).mp hm))
     simp [he, this]
 
+/-- OSC 1.0 reading of wildcard patterns: for every pattern made of ordinary characters, `?` and `*`,
+    the library's answer is `True` exactly when the address is in the pattern's language — `?` one
+    character, `*` any sequence, everything else itself, over the WHOLE address -/
+theorem wildcard_pattern_language (p : List STok) (hp : ∀ t ∈ p, t.ok = true) (address : Str) :
+    oscMatch (sprint p) address = some true ↔ SMatches p address := by
+  have hf : useFullmatch = true := rfl
+  have hparse : reParse (rewrite (sprint p)) = .ok (seqOf (p.map STok.regex)) := by
+    unfold rewrite reParse PState.init
+    rw [rewrite_sprint p hp]
+    have := prun_tokens p ⟨[], []⟩ [] hp
+    simp only [List.nil_append] at this
+    rw [this]
+    simp [pfinish, Frame.close, altOf]
+  unfold oscMatch
+  rw [hparse]
+  simp only [hf, if_true]
+  rw [← matches_tokens, ← fullmatch_iff]
+  simp
+
 /-! ## (ii) dispatch -/
 
 /-- MAIN (dispatch): for EVERY history of responder operations (creation, enable, disable, free,
@@ -164,6 +183,24 @@ theorem only_enabled_fire (env : Env) (s : St) (hs : Reachable env s) (k : DispK
     obtain ⟨r, _, h2, _, h4, _⟩ := ((dispatch_matching env s hs d).2.2 q).mp hq
     rw [h4]; exact h2
 
+/-- `oneshot_fires_once`: a one-shot responder that fires is disabled by that very dispatch (so, by
+    `only_enabled_fire`, it is never invoked again unless re-enabled), and nothing a dispatch
+    disables comes back by itself -/
+theorem oneshot_fires_once (env : Env) (s : St) (hs : Reachable env s) (k : DispKind) (d : Delivery)
+    (q : Nat × AResp) (hq : q ∈ ahits env (abs s) k d) (ho : q.2.func.isOnce = true) :
+    (alookup (adispatch env (abs s) k d).1 q.1).map (·.enabled) = some false := by
+  have hex : ∃ r, alookup (abs s) q.1 = some r := by
+    cases k with
+    | exact =>
+      obtain ⟨r, h1, _⟩ := ((dispatch_exact env s hs d).2.2 q).mp hq
+      exact ⟨absResp r, by rw [alookup_abs, h1]; rfl⟩
+    | pattern =>
+      obtain ⟨r, h1, _⟩ := ((dispatch_matching env s hs d).2.2 q).mp hq
+      exact ⟨absResp r, by rw [alookup_abs, h1]; rfl⟩
+  simp only [adispatch]
+  refine (adisableAll_disables (abs s) _ q.1 ?_ hex).1
+  exact List.mem_map_of_mem (List.mem_filter.mpr ⟨hq, ho⟩)
+
 /-! ## (iii) hostile datagrams -/
 
 /-- a datagram the decoder rejects invokes nothing and leaves the receiver exactly as it was (so the
@@ -232,5 +269,7 @@ example : oscMatch [47, 102, 63, 111, 42] [47, 102, 111, 111, 98, 97, 114] = som
 example : oscMatch [47, 91] [47, 91] = some false := by decide
 example : oscMatch [47, 123, 97, 44, 98, 99, 125, 91, 33, 120, 45, 122, 93] [47, 98, 99, 113] = some true := by decide
 example : ∀ c ∈ [47, 102, 111, 111], plainChar c = true := by decide
+-- '/f?o*' as tokens
+example : ∀ t ∈ [STok.lit 47, .lit 102, .any1, .lit 111, .star], t.ok = true := by decide
 
 end Sc3Verif.C18
